@@ -192,11 +192,50 @@ def rule_writers(ctx, infos):
 
 
 # ---------------------------------------------------------------------------------------
-def done_blocks(fn):
+PUBLISHERS = {}    # id(prog) -> set of function paths that call done_render(self, ..) on every path to return
+
+
+def publishers(prog):
+    """functions of the handle (first parameter `self`) every normal path of which publishes through done_render on `self`, directly
+    or through another such function: a private helper that always publishes is as good as done_render for its callers"""
+    key = id(prog)
+    if key in PUBLISHERS:
+        return PUBLISHERS[key]
+    pub = {DONE}
+    fns = [f for f in handle_fns(prog) if f.path != DONE and f.argc >= 1]
+    for _ in range(4):
+        grew = False
+        for f in fns:
+            if f.path in pub:
+                continue
+            defs = Defs(f)
+            blocks = set()
+            for b, t in f.calls():
+                c = callee(t)
+                if c and (c["fn"] in pub or c.get("res") in pub) and t[2]:
+                    ap = access_path(f, defs, op_local(t[2][0])) if op_local(t[2][0]) is not None else None
+                    if ap is not None and ap[0] == 1 and ap[1] == ():
+                        blocks.add(b)
+            if not blocks:
+                continue
+            rets = [b for b in range(len(f.blocks)) if f.term(b)[0] == "ret" and not f.is_cleanup(b)]
+            if not rets:
+                continue
+            if find_path_edges(f, [0], lambda x: f.term(x)[0] == "ret", avoid_block=lambda x: x in blocks) is None and 0 not in blocks:
+                pub.add(f.path)
+                grew = True
+        if not grew:
+            break
+    PUBLISHERS[key] = pub
+    return pub
+
+
+def done_blocks(fn, prog=None):
     out = set()
+    pub = publishers(prog) if prog is not None else {DONE}
     for b, t in fn.calls():
         c = callee(t)
-        if c and c["fn"] == DONE:
+        if c and (c["fn"] in pub or c.get("res") in pub):
             out.add(b)
     return out
 
@@ -333,7 +372,7 @@ def rule_rendering(ctx, infos):
                 check_wrapper(ctx, info, m, ridx, ok_acquire)
                 continue
             # direct mark: must-pass-through done_render or an overwriting store under the same guard
-            dn = done_blocks(fn)
+            dn = done_blocks(fn, ctx.prog)
             over = {s["bb"] for s in info.stores
                     if s is not m and s["guard"] == m["guard"] and s["variant"] is not None and s["variant"] != "Rendering"
                     and not (s["bb"] == m["bb"])}
@@ -358,7 +397,7 @@ def rule_rendering(ctx, infos):
             defs = Defs(f)
             token = alias_closure(f, {t[3][0]})
             no_tok = _token_edges(f, defs, token)
-            dn = done_blocks(f)
+            dn = done_blocks(f, ctx.prog)
             # done_render must be on the same handle as the acquire
             recv = access_path(f, defs, op_local(t[2][0])) if t[2] else None
             dn_same = set()
@@ -431,11 +470,15 @@ def check_wrapper(ctx, info, m, ridx, ok_acquire):
     if not some_blocks:
         ctx.bad(rid, "wrapper-returns-state:" + p, "acquire wrapper never returns Some(old state)", fn=fn)
         return
-    # (a) Some(old) is built only when old is None / InProgress.  Decided per variant: fix discriminant(old) = v and follow the
-    # CFG with constant propagation (so `match`, `if let`, `matches!(..)` and a bool flag computed from the match are all
-    # understood); a Some(old) block reachable for any other variant is the violation.
+    # (a) Some(old) is handed out only when the state was None / InProgress.  Decided per variant: fix the discriminant of the
+    # handle's state = v, walk the CFG from the lock with constant propagation (so replace-then-match, test-then-replace,
+    # `matches!(..)` and a bool flag computed from the match are all understood); a Some(old) block reachable for any other
+    # variant is the violation.
     start = fn.term(m["bb"])[4]
+    start0 = fn.term(locks[0])[4] if locks else start
     variants = fr_variants(ctx.prog)
+    g_local = m["guard"]
+    ridx_i = variants.index("Rendering")
     offending = []
     for vi, vname in enumerate(variants):
         if str(vi) in ok_acquire:
@@ -450,9 +493,11 @@ def check_wrapper(ctx, info, m, ridx, ok_acquire):
 
         def assume(pl, vi=vi):
             base = pl[0]
-            for _ in range(4):
+            for _ in range(6):
                 if base in old:
                     return vi
+                if base == g_local or is_guard_ty(fn.local_ty(base)):
+                    return vi          # the state as seen through the guard before it is replaced
                 d = defs.single(base)
                 if d and d[2] == "assign" and d[3][2][0] == "ref":
                     base = d[3][2][2][0]
@@ -460,23 +505,29 @@ def check_wrapper(ctx, info, m, ridx, ok_acquire):
                 if d and d[2] == "assign" and d[3][2][0] == "use" and op_place(d[3][2][1]) is not None:
                     base = op_place(d[3][2][1])[0]
                     continue
+                if d and d[2] == "call" and callee(d[3]) and callee(d[3])["fn"].split("::<")[0] in (
+                        "core::ops::deref::Deref::deref", "core::ops::deref::DerefMut::deref_mut") and d[3][2]:
+                    base = op_local(d[3][2][0])
+                    if base is None:
+                        break
+                    continue
                 break
             return None
 
-        const_explore(fn, start, {}, on_block, assume_discr=assume)
+        const_explore(fn, start0, {}, on_block, assume_discr=assume)
         if hit:
             offending.append((vname, hit[0]))
     if not offending:
-        ctx.ok(rid, "wrapper-some-only-idle:%s" % p, "Some(old) is reachable only for discriminant(old) in {None, InProgress} "
-               "(%d other variants explored)" % (len(variants) - len(ok_acquire)), nontrivial=True, fn=fn)
+        ctx.ok(rid, "wrapper-some-only-idle:%s" % p, "Some(old) is reachable only for a state in {None, InProgress} "
+               "(%d other variants explored from the lock)" % (len(variants) - len(ok_acquire)), nontrivial=True, fn=fn)
     else:
         ctx.bad(rid, "wrapper-some-only-idle:%s" % p,
                 "Some(old state) can be returned for state %s (Rendering: two renderers at once; Done/Blended/Err: a finished frame "
                 "rendered again)" % ", ".join(v for v, _ in offending), fn=fn, pos=fn.term_pos(offending[0][1]))
     # (b) every path mark -> ret that does not go through a Some block passes an overwriting store under the same guard
     over = {s["bb"] for s in info.stores if s is not m and s["guard"] == m["guard"] and s["kind"] == "store"}
-    path = find_path_edges(fn, [start], lambda x: fn.term(x)[0] == "ret",
-                           avoid_block=lambda x: x in over or x in some_blocks)
+    path = None if (start in over or start in some_blocks) else \
+        find_path_edges(fn, [start], lambda x: fn.term(x)[0] == "ret", avoid_block=lambda x: x in over or x in some_blocks)
     if path is None:
         ctx.ok(rid, "wrapper-restores:%s" % p, "every exit that does not hand out the state overwrites the mark under the guard "
                "(%d stores)" % len(over), nontrivial=True, fn=fn)
